@@ -253,4 +253,175 @@ Module Arr.
       + match goal with |- context [promote_if_single ?x] => destruct (promote_if_single x) end. cbn. discriminate.
       + intros _. apply nth_N_none_iff in E. lia.
   Qed.
+
+  (* --- ranges: Array.RangeIterator / ReadOnlyRangeIterator (array.go 1039-1049, 1091-1100) --- *)
+  Lemma range_rejects a s e :
+    (a_range a s e = RErr ESliceOOB <-> (a_count a < s \/ a_count a < e)) /\
+    (a_range a s e = RErr EInvalidSlice <-> (s <= a_count a /\ e <= a_count a /\ e < s)) /\
+    ((exists l, a_range a s e = RList l) <-> (s <= e /\ e <= a_count a)).
+  Proof.
+    unfold a_range.
+    destruct (a_count a <? s) eqn:E1; destruct (a_count a <? e) eqn:E2; destruct (e <? s) eqn:E3;
+      rewrite ?N.ltb_lt, ?N.ltb_ge in *;
+      (split; [|split]); split;
+      try (intros [l Hl]; discriminate Hl); try discriminate; try lia; try reflexivity;
+      try (intros _; eexists; reflexivity).
+  Qed.
+
+  (* --- histories: leaving out the rejected requests changes nothing --- *)
+  Lemma array_history c ops : forall a,
+    a_run_full c a (a_filter c a ops) =
+    let '(a1, xs, lg) := a_run_full c a ops in (a1, filter (fun x => negb (a_rejected x)) xs, lg).
+  Proof.
+    induction ops as [|o r IH]; intros a; [reflexivity|].
+    cbn [a_run_full a_filter].
+    pose proof (array_no_trace c a o) as NT.
+    destruct (a_step c a o) as [[a1 x] l] eqn:E. cbn [fst snd] in NT.
+    specialize (IH a1). destruct (a_run_full c a1 r) as [[a2 xs] lg].
+    cbn [filter]. destruct (a_rejected x) eqn:R; cbn [negb].
+    - destruct x; try discriminate R. destruct (NT _ eq_refl) as [-> ->]. rewrite IH. reflexivity.
+    - cbn [a_run_full]. rewrite E, IH. reflexivity.
+  Qed.
+
+  (* --- the refusal is decided by a read-only walk: errors raised after a slab was changed are
+         never argument errors --- *)
+  Section anode_ind.
+    Variable Q : anode -> Prop.
+    Hypothesis HD : forall h nx es, Q (AD h nx es).
+    Hypothesis HM : forall h hs sums cs, Forall Q cs -> Q (AM h hs sums cs).
+    Fixpoint anode_ind' (n : anode) : Q n :=
+      match n with
+      | AD h nx es => HD h nx es
+      | AM h hs sums cs =>
+        HM h hs sums cs
+           ((fix go (l : list anode) : Forall Q l :=
+               match l with [] => @Forall_nil _ Q | x :: r => @Forall_cons _ Q x r (anode_ind' x) (go r) end) cs)
+      end.
+  End anode_ind.
+
+  Lemma on_kth_nth {A B} (f : A -> B) l : forall k, on_kth f l k = option_map f (nth_error l k).
+  Proof. induction l as [|x r IH]; intros [|k]; cbn; auto. Qed.
+
+  Lemma split_child_err h hs sums cs k ch al e : split_child h hs sums cs k ch al = Err e -> e = ESplit.
+  Proof.
+    unfold split_child. destruct (n_split ch (al + 1)) as [[l r]|x] eqn:E; [discriminate|].
+    intros H. injection H as ->. now apply n_split_err in E.
+  Qed.
+
+  Lemma n_merge_err l r e : n_merge l r = Err e -> e = EPanic.
+  Proof. destruct l, r; cbn; congruence. Qed.
+  Lemma n_lend_err c l r e : n_lend_to_right c l r = Err e -> e = EPanic.
+  Proof. destruct l, r; cbn; try congruence. destruct (lend_loop _ _ _ _ _ _). discriminate. Qed.
+  Lemma n_borrow_err c l r e : n_borrow_from_right c l r = Err e -> e = EPanic.
+  Proof. destruct l, r; cbn; try congruence. destruct (borrow_loop _ _ _ _ _ _). discriminate. Qed.
+
+  Lemma rebalance_err c h hs sums cs li l r b e : rebalance_children c h hs sums cs li l r b = Err e -> e = EPanic.
+  Proof.
+    unfold rebalance_children. destruct b.
+    - destruct (n_borrow_from_right c l r) as [[l' r']|x] eqn:E; [discriminate|]. intros H. injection H as ->. now apply n_borrow_err in E.
+    - destruct (n_lend_to_right c l r) as [[l' r']|x] eqn:E; [discriminate|]. intros H. injection H as ->. now apply n_lend_err in E.
+  Qed.
+  Lemma merge_children_err h hs sums cs li l r e : merge_children h hs sums cs li l r = Err e -> e = EPanic.
+  Proof.
+    unfold merge_children. destruct (n_merge l r) as [m|x] eqn:E; [discriminate|]. intros H. injection H as ->. now apply n_merge_err in E.
+  Qed.
+
+  Lemma mor_err c h hs sums cs k ch need e : merge_or_rebalance c h hs sums cs k ch need = Err e -> e = EPanic.
+  Proof.
+    unfold merge_or_rebalance.
+    repeat match goal with
+           | |- context [match ?x with _ => _ end] =>
+             lazymatch x with
+             | rebalance_children _ _ _ _ _ _ _ _ _ => fail
+             | merge_children _ _ _ _ _ _ _ => fail
+             | _ => destruct x
+             end
+           end;
+      intros H; first [now apply rebalance_err in H | now apply merge_children_err in H | congruence].
+  Qed.
+
+  Lemma set_refusal_is_lookup c : forall n pfx i e al,
+    n_set c pfx n i e al = Err EIndexOOB <-> n_get n i = Err EIndexOOB.
+  Proof.
+    induction n as [h nx es|h hs sums cs IH] using anode_ind'; intros pfx i e al; cbn [n_set n_get].
+    - destruct (nth_N es i); [|tauto]. destruct (externalise e al) as [[e' al'] lg]. split; discriminate.
+    - destruct (h_count h <=? i); [tauto|]. destruct (route hs sums i) as [[k j]|]; [|split; discriminate].
+      rewrite !on_kth_nth. destruct (nth_error cs k) as [ch|] eqn:K; cbn [option_map]; [|split; discriminate].
+      pose proof (proj1 (Forall_forall _ _) IH ch (nth_error_In _ _ K) P j e al) as IHc.
+      destruct (n_set c P ch j e al) as [[[[ch' old] al'] lg]|x]; [|exact IHc].
+      assert (NG : n_get ch j <> Err EIndexOOB) by (intros G; apply IHc in G; discriminate).
+      split; [|tauto]. intros H. exfalso.
+      destruct (n_is_full c ch').
+      + destruct (split_child _ _ _ _ _ _ _) as [[[n' al''] lg']|x] eqn:S; [discriminate|].
+        apply split_child_err in S. congruence.
+      + destruct (n_underflow c ch'); [|discriminate].
+        destruct (merge_or_rebalance _ _ _ _ _ _ _ _) as [[n' lg']|x] eqn:S; [discriminate|].
+        apply mor_err in S. congruence.
+  Qed.
+
+  Lemma remove_refusal_is_lookup c : forall n i,
+    n_remove c n i = Err EIndexOOB <-> n_get n i = Err EIndexOOB.
+  Proof.
+    induction n as [h nx es|h hs sums cs IH] using anode_ind'; intros i; cbn [n_remove n_get].
+    - destruct (nth_N es i); [|tauto]. split; discriminate.
+    - destruct (h_count h <=? i); [tauto|]. destruct (route hs sums i) as [[k j]|]; [|split; discriminate].
+      rewrite !on_kth_nth. destruct (nth_error cs k) as [ch|] eqn:K; cbn [option_map]; [|split; discriminate].
+      pose proof (proj1 (Forall_forall _ _) IH ch (nth_error_In _ _ K) j) as IHc.
+      destruct (n_remove c ch j) as [[[ch' old] lg]|x]; [|exact IHc].
+      assert (NG : n_get ch j <> Err EIndexOOB) by (intros G; apply IHc in G; discriminate).
+      split; [|tauto]. intros H. exfalso.
+      destruct (n_underflow c ch'); [|discriminate].
+      destruct (merge_or_rebalance _ _ _ _ _ _ _ _) as [[n' lg']|x] eqn:S; [discriminate|].
+      apply mor_err in S. congruence.
+  Qed.
+
+  Lemma insert_refusal_is_lookup c : forall n i e al,
+    n_insert c n i e al = Err EIndexOOB <-> n_insert_refused n i = true.
+  Proof.
+    induction n as [h nx es|h hs sums cs IH] using anode_ind'; intros i e al; cbn [n_insert n_insert_refused].
+    - destruct (N.of_nat (length es) <? i); [tauto|]. destruct (externalise e al) as [[e' al'] lg]. split; discriminate.
+    - destruct (h_count h <? i); [tauto|].
+      match goal with |- context [match ?t with Some _ => _ | None => Err EPanic end] => destruct t as [[k j]|] end;
+        [|split; discriminate].
+      rewrite !on_kth_nth. destruct (nth_error cs k) as [ch|] eqn:K; cbn [option_map]; [|split; discriminate].
+      pose proof (proj1 (Forall_forall _ _) IH ch (nth_error_In _ _ K) j e al) as IHc.
+      destruct (n_insert c ch j e al) as [[[ch' al'] lg]|x]; [|exact IHc].
+      assert (NG : n_insert_refused ch j <> true) by (intros G; apply IHc in G; discriminate).
+      split; [|tauto]. intros H. exfalso.
+      destruct (n_is_full c ch'); [|discriminate].
+      destruct (split_child _ _ _ _ _ _ _) as [[[n' al''] lg']|x] eqn:S; [discriminate|].
+      apply split_child_err in S. congruence.
+  Qed.
+
+  (* the same at the level of requests *)
+  Lemma refusal_is_lookup c a i :
+    (forall e, snd (fst (a_step c a (OSet i e))) = RErr EIndexOOB <-> snd (fst (a_step c a (OGet i))) = RErr EIndexOOB) /\
+    (snd (fst (a_step c a (ORemove i))) = RErr EIndexOOB <-> snd (fst (a_step c a (OGet i))) = RErr EIndexOOB) /\
+    (forall e, snd (fst (a_step c a (OInsert i e))) = RErr EIndexOOB <->
+               (a_count a <> max_count /\ n_insert_refused (a_root a) i = true)).
+  Proof.
+    assert (G : a_get a i = RErr EIndexOOB <-> n_get (a_root a) i = Err EIndexOOB).
+    { unfold a_get. destruct (n_get (a_root a) i) as [x|x]; split; congruence. }
+    cbn [a_step fst snd]. split; [|split].
+    - intros e. rewrite G, <- (set_refusal_is_lookup c (a_root a) RP i e (a_alloc a)). unfold a_set.
+      destruct (n_set c RP (a_root a) i e (a_alloc a)) as [[[[r' old] al] lg]|x]; [|cbn; split; congruence].
+      split; [|discriminate]. intros H. exfalso. revert H.
+      match goal with |- context [if ?b then split_root ?x else _] =>
+        destruct b; [destruct (split_root x) as [[a2|err] lg2] eqn:S|] end.
+      + destruct (promote_if_single a2). cbn. discriminate.
+      + apply split_root_err in S. subst err. cbn. discriminate.
+      + match goal with |- context [promote_if_single ?x] => destruct (promote_if_single x) end. cbn. discriminate.
+    - rewrite G, <- (remove_refusal_is_lookup c (a_root a) i). unfold a_remove.
+      destruct (n_remove c (a_root a) i) as [[[r' old] lg]|x]; [|cbn; split; congruence].
+      split; [|discriminate]. match goal with |- context [promote_if_single ?x] => destruct (promote_if_single x) end. cbn. discriminate.
+    - intros e. rewrite <- (insert_refusal_is_lookup c (a_root a) i e (a_alloc a)). unfold a_insert.
+      destruct (a_count a =? max_count) eqn:M.
+      + apply N.eqb_eq in M. cbn. split; [discriminate|]. intros [H _]. now elim H.
+      + apply N.eqb_neq in M.
+        destruct (n_insert c (a_root a) i e (a_alloc a)) as [[[r' al] lg]|x]; [|cbn; split; [intros H; split; congruence|intros [_ H]; congruence]].
+        split; [|intros [_ H]; discriminate]. intros H. exfalso. revert H.
+        match goal with |- context [if ?b then split_root ?x else _] =>
+          destruct b; [destruct (split_root x) as [[a2|err] lg2] eqn:S|] end; cbn; try discriminate.
+        apply split_root_err in S. subst err. discriminate.
+  Qed.
 End Arr.
